@@ -125,12 +125,29 @@ def run_check(chk, ctx):
     # 4/5 correspond + oracle -------------------------------------------------------------
     res = Result()
     ctx.model_ok = ok
-    try:
-        if not any(b["kind"] == "harness-build" for b in broken):
-            chk.correspond(ctx, res)
-    except Exception as e:
-        traceback.print_exc()
-        broken.append({"kind": "correspondence-crashed", "name": prop, "detail": "%s: %s" % (type(e).__name__, e)})
+    for attempt in (0, 1):
+        try:
+            if not any(b["kind"] == "harness-build" for b in broken):
+                chk.correspond(ctx, res)
+            break
+        except OSError as e:
+            # a binary under build/<cfg> was being relinked by another check running at the same time
+            # (EACCES / ETXTBSY): wait for that build to finish and run the pass again, once
+            traceback.print_exc()
+            if attempt == 0 and e.errno in (13, 26):
+                C.log("binary busy (%s); waiting for the concurrent build and retrying" % e)
+                time.sleep(5)
+                for cfg in chk.impl_cfgs:
+                    C.build_impl(cfg)
+                res = Result()
+                ctx.rng = C.Rng(ctx.seed, prop)
+                continue
+            broken.append({"kind": "correspondence-crashed", "name": prop, "detail": "%s: %s" % (type(e).__name__, e)})
+            break
+        except Exception as e:
+            traceback.print_exc()
+            broken.append({"kind": "correspondence-crashed", "name": prop, "detail": "%s: %s" % (type(e).__name__, e)})
+            break
     for mm in res.mismatches[:50]:
         broken.append({"kind": "correspondence", "name": mm.get("stream", "?"),
                        "detail": json.dumps({"model": mm.get("model"), "impl": mm.get("impl")})[:1200], "input": mm.get("input")})
